@@ -318,7 +318,7 @@ theorem p1_legit : Legit (atom 0) p1 :=
     simp only [List.mem_cons, List.not_mem_nil, or_false] at hit
     rcases hit with rfl | rfl
     · exact .plain _ rfl
-    · exact .new3p _ _ _ _) rfl
+    · exact .new3p _ _ _ _ trivial) rfl
 theorem p2_legit : Legit (atom 0) p2 :=
   .added p1 _ p1_legit (by
     intro it hit
